@@ -56,6 +56,16 @@ structure Cfg where
   minOverlap : Nat
 deriving Repr
 
+/-! ## a stable sort that evaluates by structural recursion (Python's `sorted` / `list.sort`) -/
+
+/-- insert `x` before the first element `y` with `le x y` -/
+def insertBy {α} (le : α → α → Bool) (x : α) : List α → List α
+  | [] => [x]
+  | y :: ys => if le x y then x :: y :: ys else y :: insertBy le x ys
+
+/-- stable insertion sort -/
+def isort {α} (le : α → α → Bool) (l : List α) : List α := l.foldr (insertBy le) []
+
 /-! ## VcfReader: records → table rows -/
 
 /-- the `continue`s of the reader that precede the order / duplicate tests -/
@@ -126,7 +136,7 @@ def subsetRows (ps : List Nat) (t : List VRec) : List VRec := t.filter (fun r =>
 /-! ## create_genotype_list -/
 
 /-- `Genotype.as_vector()`: the alleles in descending order -/
-def asVector (gt : List Allele) : List Allele := gt.mergeSort (fun a b => decide (b ≤ a))
+def asVector (gt : List Allele) : List Allele := isort (fun a b => decide (b ≤ a)) gt
 
 /-- `if allele not in allele_count: allele_count[allele] = 0; allele_count[allele] += 1` -/
 def dictIncr : List (Allele × Nat) → Allele → List (Allele × Nat)
@@ -197,7 +207,7 @@ def sameGenotype (g h : List Allele) : Bool := (g ++ h).all (fun a => g.count a 
 
 /-- `_remove_existing_phasing` on the call (polyphase constructs the writer with the default
 `remove_existing_phasing=True`): unphased, alleles sorted, no PS -/
-def removeExisting (r : VRec) : OutCall := ⟨r.gt.mergeSort (fun a b => decide (a ≤ b)), false, none⟩
+def removeExisting (r : VRec) : OutCall := ⟨isort (fun a b => decide (a ≤ b)) r.gt, false, none⟩
 
 /-- the `continue`s of the writer that precede the duplicate test -/
 def writerSkipsMulti (repaired : Bool) (c : Cfg) (r : VRec) : Bool :=
@@ -224,7 +234,7 @@ def writeLoop (repaired : Bool) (c : Cfg) (ph : List (Nat × List Allele)) (comp
       | some p, some comp =>
         -- "is genotype to be changed?"
         let changed := !sameGenotype p r.gt
-        let gt' := if changed then p.mergeSort (fun a b => decide (a ≤ b)) else (removeExisting r).gt
+        let gt' := if changed then isort (fun a b => decide (a ≤ b)) p else (removeExisting r).gt
         let het := if changed then isHet p else isHet r.gt
         (if het then ⟨p, true, some (comp + 1)⟩ else ⟨gt', false, none⟩) ::
           writeLoop repaired c ph comps (some r.pos) rs
